@@ -895,7 +895,7 @@ _CACHE: dict = {}
 
 def inlined(prog: Program, fi: FuncInfo, *, keep=(), only=None, max_depth: int = 2, desugar: bool = False) -> FuncInfo:
     """fi with same-module helper calls expanded (a new FuncInfo; fi itself when nothing was expanded)"""
-    key = (id(prog), fi.key, tuple(sorted(keep)), tuple(sorted(only)) if only else None, max_depth, desugar)
+    key = (prog.uid, fi.key, tuple(sorted(keep)), tuple(sorted(only)) if only else None, max_depth, desugar)
     if key in _CACHE:
         return _CACHE[key]
     cur = fi
@@ -956,7 +956,7 @@ def all_inlined(prog: Program, *, keep=(), drop: str = "expanded", variants=None
     into a helper is then seen in the context of each caller.  A function that was expanded at every call site that
     is left in the package is not listed on its own (drop="expanded"; drop="private": only underscore-named ones;
     drop="none": keep all)."""
-    key = (id(prog), tuple(sorted(keep)), drop, tuple(variants) if variants else None)
+    key = (prog.uid, tuple(sorted(keep)), drop, tuple(variants) if variants else None)
     if key in _ALL:
         return _ALL[key]
     funcs = [f for f in prog.funcs if f.parent is None and (variants is None or f.variant in variants)]
